@@ -148,6 +148,7 @@ func main() {
 	censusSites(pkgs, reachAll, appliesOf)
 	facts.Sites = sites
 	debugApplies()
+	translateBodies(pkgs, byPath)
 
 	facts.Stats["registrations"] = len(facts.Registrations)
 	facts.Stats["lint_types"] = len(facts.LintTypes)
